@@ -22,7 +22,7 @@ ASSUMPTIONS = [
 ]
 
 
-def gen_indices(rng, layout):
+def gen_indices(rng, layout, tiny=False):
     if layout == "mgrid":
         lo0, lo1 = int(rng.integers(-4, 1)), int(rng.integers(-4, 1))
         n, m = int(rng.integers(1, 6)), int(rng.integers(1, 6))
@@ -33,7 +33,8 @@ def gen_indices(rng, layout):
         idx = rng.integers(-5, 6, (n, 2)).astype(np.float64)
         if rng.random() < 0.3:
             idx = idx + rng.integers(0, 4, (n, 2)) / 4.0
-        if rng.random() < 0.25:
+        if tiny and rng.random() < 0.25:
+            # (oracle only: the correspondence compares with exact arithmetic and needs exactly representable products)
             # fractional indices very close to, but not equal to, the zero order (only index (0, 0) exactly is the zero order)
             tiny = float(10.0 ** -int(rng.integers(7, 14)))
             extra = np.array([[tiny, 0.0], [0.0, -tiny], [tiny, tiny], [0.0, 0.0]])[: int(rng.integers(1, 5))]
@@ -191,7 +192,7 @@ def search(ctx, boost=1, focus=()):
     for k in range(n):
         zero, a, b = lattice(rng, dyadic=(k % 2 == 0))
         layout = ("mgrid", "list", "list", "list2")[k % 4]
-        idx, flat = gen_indices(rng, "list" if layout == "list2" else layout)
+        idx, flat = gen_indices(rng, "list" if layout == "list2" else layout, tiny=True)
         if layout == "list2":
             idx = rng.integers(-5, 6, (2, 2)).astype(np.float64)
             flat = idx
